@@ -235,6 +235,24 @@ func cmdForms(args []string) {
 			}
 			logs = log.evs
 			rec["iscallback"] = isCb
+			// variadic Code constructs called with exactly ONE statement: the Group form must append a NEW statement
+			// (what is chained on the result must not be written into the caller's argument)
+			if ft.IsVariadic() && ft.In(ft.NumIn()-1).Elem() == codeType && ft.NumIn() == 1 {
+				safely(func() ([]byte, error) {
+					x := jen.Id("arg")
+					before := rawOf(x)
+					var viaGroup *jen.Statement
+					viaGroup = jen.CustomFunc(jen.Options{}, func(g *jen.Group) {
+						r := reflect.ValueOf(g).MethodByName(name).Call([]reflect.Value{reflect.ValueOf(x)})[0].Interface().(*jen.Statement)
+						r.Id("tail")
+					})
+					viaFunc := pkg[name].Call([]reflect.Value{reflect.ValueOf(jen.Id("arg"))})[0].Interface().(*jen.Statement)
+					viaFunc.Id("tail")
+					rec["one_group"], rec["one_func"] = rawOf(viaGroup), rawOf(viaFunc)
+					rec["arg_before"], rec["arg_after"] = before, rawOf(x)
+					return nil, nil
+				})
+			}
 		}
 		rec["outs"] = outs
 		rec["log"] = logs
@@ -246,6 +264,11 @@ func cmdForms(args []string) {
 		}
 		if _, has := rec["builderror"]; !has {
 			rec["builderror"] = ""
+		}
+		for _, k := range []string{"one_group", "one_func", "arg_before", "arg_after"} {
+			if _, has := rec[k]; !has {
+				rec[k] = ""
+			}
 		}
 		tw.Emit(rec)
 		tw.Distinct("constructs", name)
@@ -282,6 +305,15 @@ func cmdForms(args []string) {
 			return nil, nil
 		})
 		tw.Emit(Rec{"ev": "funcv", "id": id, "name": name, "plain": a, "funcv": b, "status": r.status})
+	}
+	// GoString, Render and RenderWithFile(fresh File) agree - also for the n-th statement printed in this process,
+	// with qualified identifiers whose paths compete for one package name
+	for i, path := range []string{"a/pkg", "b/pkg", "c/pkg", "fmt", "x/fmt", "b/pkg"} {
+		id++
+		tw.Traces++
+		s := jen.Qual(path, "F").Call(jen.Qual("a/pkg", "V"))
+		g, r, w := renderAll(s)
+		tw.Emit(Rec{"ev": "entry", "id": id, "name": fmt.Sprintf("statement %d (%s)", i+1, path), "gostring": g, "render": r, "withfile": w})
 	}
 	// DictFunc returns a Dict, not a statement: checked on its own
 	{
